@@ -350,8 +350,10 @@ func genProg(w *bufio.Writer, r *rand.Rand, n int, o progOpts, big bool) {
 				c = append(c, -1)
 			}
 		}
-		c = append(c, int64(len(endLabels)))
-		c = append(c, endLabels...)
+		if len(endLabels) > 0 {
+			c = append(c, -7, int64(len(endLabels)))
+			c = append(c, endLabels...)
+		}
 		wr(w, c)
 	}
 }
